@@ -230,7 +230,7 @@ func identViaMain(c *IdentCase) error {
 	for _, o := range c.Origins {
 		id := logfmt.ID(o)
 		wantIDs = append(wantIDs, id)
-		resp, err := http.Get(addr + "/witness/v0/logs/" + id + "/checkpoint")
+		resp, err := verifHTTP.Get(addr + "/witness/v0/logs/" + id + "/checkpoint")
 		if err != nil {
 			return fmt.Errorf("harness: GET: %v", err)
 		}
@@ -245,7 +245,7 @@ func identViaMain(c *IdentCase) error {
 		}
 	}
 	sort.Strings(wantIDs)
-	resp, err := http.Get(addr + "/witness/v0/logs")
+	resp, err := verifHTTP.Get(addr + "/witness/v0/logs")
 	if err != nil {
 		return fmt.Errorf("harness: GET logs: %v", err)
 	}
